@@ -217,6 +217,8 @@ def run(F, R, tier):
     except AnalysisBroken as e:
         R.soft_broken(str(e))
 
+    _index_spaces(F, R)
+
     # ---- R6 default constants -------------------------------------------------------------------
     R.rule("R6", "the default SM constants of gm2_constants.hpp are read only by constructors / default "
                  "initialisers (conversions use the model's own inputs)", 20)
@@ -278,3 +280,115 @@ def _r5(F, R):
             "with this ml2(1,1) the tree-level muon-sneutrino mass^2 is not identically MSvmL_pole^2",
             key="R5|convert_ml2")
 
+
+
+
+def _index_spaces(F, R):
+    """R7: the bino-like neutralino has one position in the pole-mass multiplet (found in physical.ZN) and another in the
+    tree-level multiplet (found in get_ZN()).  An index may subscript only the arrays of its own multiplet: the
+    convergence measure |MChi_goal(i) - get_MChi(i)| with a pole index compares an entry with itself (residual 0)."""
+    R.rule("R7", "convert_Mu_M1_M2: pole-multiplet indices subscript only get_physical() arrays, tree-level indices only the "
+                 "model's arrays (incl. the argument of the convergence measure)", 6)
+    f = [g for g in F.fns("gm2calc::MSSMNoFV_onshell::convert_Mu_M1_M2")][0]
+    Rr = Renderer(f, resolve_locals=False)
+    POLE, MODEL = "pole", "model"
+
+    def space_of_expr(n):
+        """index space produced by an initialiser / assigned expression"""
+        t = Rr.r(n)
+        if re.search(r"find_bino_like_neutralino\(\)", t):
+            return POLE                                   # member without argument: looks into physical.ZN
+        if re.search(r"find_bino_like_neutralino\(get_physical\(\)\.ZN", t):
+            return POLE
+        if re.search(r"find_bino_like_neutralino\(get_ZN\(\)", t):
+            return MODEL
+        return None
+    # the argument-free member must indeed read physical.ZN
+    mem = [g for g in F.fns("gm2calc::MSSMNoFV_onshell::find_bino_like_neutralino") if not g["params"]]
+    if len(mem) != 1 or "get_physical().ZN" not in " ".join(Renderer(mem[0], resolve_locals=False).r(x) for x in walk(mem[0]["body"]) if x.get("k") == "ReturnStmt"):
+        R.soft_broken("R7: find_bino_like_neutralino() no longer returns the position in physical.ZN")
+        return
+    var_space = {}
+    for n in walk(f["body"], skip_lambdas=False):
+        if n.get("k") == "DeclStmt":
+            for d in n.get("decls", ()):
+                if d.get("init") is not None:
+                    sp = space_of_expr(d["init"])
+                    if sp:
+                        var_space.setdefault(d["id"], set()).add(sp)
+        if n.get("k") == "BinaryOperator" and n.get("op") == "=":
+            l = strip_all(n["c"][0])
+            if l.get("k") == "DeclRefExpr":
+                sp = space_of_expr(n["c"][1])
+                if sp:
+                    var_space.setdefault(l["id"], set()).add(sp)
+    if len(var_space) < 2:
+        R.soft_broken("R7: index variables of convert_Mu_M1_M2 not found")
+        return
+    # arrays: get_physical().X -> pole; get_MChi(...) / locals initialised from get_MChi() -> model
+    model_arrays = set()
+    for n in walk(f["body"], skip_lambdas=False):
+        if n.get("k") == "DeclStmt":
+            for d in n.get("decls", ()):
+                if d.get("init") is not None and re.match(r"^\(?get_MChi\(\)\)?$", Rr.r(d["init"])):
+                    model_arrays.add(d["id"])
+    lam_param_need = {}       # lambda parameter id -> required space
+    sites = []
+
+    def idx_space(a):
+        a0 = strip_all(a)
+        if a0.get("k") == "DeclRefExpr":
+            return a0.get("id"), var_space.get(a0.get("id"))
+        return None, None
+
+    def visit(root, lam_params):
+        for n in walk(root, skip_lambdas=True):
+            need, arr, arg = None, None, None
+            if n.get("k") == "CXXOperatorCallExpr" and n.get("op") == "()" and len(n.get("c", [])) == 3:
+                obj = strip_all(n["c"][1])
+                txt = Rr.r(n["c"][1])
+                if "get_physical()." in txt:
+                    need, arr, arg = POLE, txt, n["c"][2]
+                elif obj.get("k") == "DeclRefExpr" and obj.get("id") in model_arrays:
+                    need, arr, arg = MODEL, txt, n["c"][2]
+            elif is_call(n) and str(n.get("fn", "")).endswith("::get_MChi") and len(call_args(n)) == 1:
+                need, arr, arg = MODEL, "get_MChi", call_args(n)[0]
+            if need:
+                vid, sp = idx_space(arg)
+                if vid in lam_params:
+                    lam_param_need.setdefault(vid, set()).add(need)
+                else:
+                    sites.append((n, arr, need, sp, Rr.r(arg)))
+            if n.get("k") == "LambdaExpr":
+                g = F.functions.get(n.get("mg"))
+                if g is not None:
+                    visit(g["body"], {p_["id"] for p_ in g["params"]})
+    visit(f["body"], set())
+    # calls of the lambda: argument must be of the space its parameter needs
+    lam_vars = {}
+    for n in walk(f["body"]):
+        if n.get("k") == "DeclStmt":
+            for d in n.get("decls", ()):
+                lams = [x for x in walk(d["init"])] if d.get("init") is not None else []
+                ini = next((x for x in lams if x.get("k") == "LambdaExpr"), None)
+                if ini is not None:
+                    g = F.functions.get(ini.get("mg"))
+                    if g is not None and g["params"]:
+                        lam_vars[d["id"]] = g
+    for n in walk(f["body"]):
+        if n.get("k") == "CXXOperatorCallExpr" and n.get("op") == "()" and n.get("c"):
+            obj = strip_all(n["c"][1]) if len(n["c"]) > 1 else None
+            if obj is not None and obj.get("k") == "DeclRefExpr" and obj.get("id") in lam_vars and len(n["c"]) >= 3:
+                g = lam_vars[obj["id"]]
+                need = lam_param_need.get(g["params"][0]["id"])
+                if need and len(need) == 1:
+                    vid, sp = idx_space(n["c"][2])
+                    sites.append((n, "%s(.)" % Rr.r(n["c"][1]), next(iter(need)), sp, Rr.r(n["c"][2])))
+    if len(sites) < 4:
+        R.soft_broken("R7: only %d indexed accesses recognised in convert_Mu_M1_M2" % len(sites))
+    for n, arr, need, sp, atxt in sites:
+        if sp is None:
+            continue          # constant or loop index: not a multiplet position
+        R.check("R7", sp == {need}, "%s indexed by %s (%s index)" % (arr[:40], atxt, "/".join(sorted(sp))), F.loc(f, n),
+                "%s is an array in %s order but is indexed with %s, a position in the %s multiplet"
+                % (arr[:60], need, atxt, "/".join(sorted(sp))), key="R7|%s|%s" % (arr[:40], n.get("l")))
